@@ -22,6 +22,7 @@ def scenarios(seed, tier, failed):
         if charts == 2:
             ops.append([1, 'circuit', ''])
         yield {'kind': 'queues', 'charts': charts, 'ops': ops, 'spy': bool(k % 2), 'live_trace': k % 4 == 1,
+               'reuse': k % 2 == 1, 'instrumented': k % 6 != 4,
                'live_spy': k % 8 == 3, 'host': 'HsmWithQueues' if k % 5 else 'ActiveObject', 'timeout': 20}
 
 
@@ -83,10 +84,21 @@ def run(sc):
             ch = HsmWithQueues()
             ch.start_at(make(i))
         ch.live_trace, ch.live_spy = sc['live_trace'], sc['live_spy']
+        if not sc.get('instrumented', True):
+            ch.instrumented = False
         ch.register_live_spy_callback(lambda line: None) if sc['host'] != 'ActiveObject' else None
         ch.register_live_trace_callback(lambda line: None) if sc['host'] != 'ActiveObject' else None
         charts.append(ch)
     refs = [Ref() for _ in charts]
+    pool = {}
+
+    def Event(signal):                      # noqa: N802  -- every other scenario reuses one instance per signal
+        from miros.event import Event as RealEvent
+        if not sc.get('reuse'):
+            return RealEvent(signal=signal)
+        if signal not in pool:
+            pool[signal] = RealEvent(signal=signal)
+        return pool[signal]
     for k, (i, op, sg) in enumerate(sc['ops']):
         ch, ref = charts[i], refs[i]
         if op == 'fifo':
